@@ -73,6 +73,7 @@ type KZG interface {
 
 	NewSRS(size uint64, tau *big.Int) (KSRS, error)
 	EmptySRS() KSRS
+	WrapSRS(native interface{}) (KSRS, bool) // native must be a non-nil *kzg.SRS of THIS curve's package
 	Commit(s KSRS, p []*big.Int, nbTasks ...int) (KPoint, error)
 	Open(s KSRS, p []*big.Int, z *big.Int) (KProof, error)
 	Verify(s KSRS, c KPoint, pr KProof, z *big.Int) error
